@@ -13,7 +13,6 @@ package c03
 import (
 	"fmt"
 	"os"
-	"runtime/pprof"
 	"sort"
 	"strings"
 	"sync"
@@ -794,12 +793,6 @@ func TestCheck(t *testing.T) {
 		replay(cx)
 		return
 	}
-	stopProf := func() {}
-	if p := os.Getenv("C03_CPUPROFILE"); p != "" { // development aid
-		if f, err := os.Create(p); err == nil && pprof.StartCPUProfile(f) == nil {
-			stopProf = func() { pprof.StopCPUProfile(); f.Close() }
-		}
-	}
 	// plans: quick = the quick alphabet at depth 2; thorough = A: the full
 	// alphabet at depth 2 and B: the quick alphabet at depth 3 (multi: A only)
 	type plan struct {
@@ -875,7 +868,6 @@ func TestCheck(t *testing.T) {
 			r.Violation(v.key(), v)
 		}
 	})
-	stopProf()
 	var planDesc []string
 	for _, pl := range plans {
 		planDesc = append(planDesc, fmt.Sprintf("%s: %d templates, depth %d", pl.name, len(pl.names), pl.depth))
